@@ -56,7 +56,9 @@ def norm(bp):
     if op == "DIV" and ch[1][0] == "CONST" and ch[1][1][0] == REAL and ch[1][1][1] != 0:
         return ("TIMES", (), (ch[0], const(REAL, 1 / ch[1][1][1])))
     if op == "POW" and ch[0][0] == "CONST" and ch[1][0] == "CONST":
-        return const(REAL, Fraction(ch[0][1][1]) ** ch[1][1][1])
+        b, e = Fraction(ch[0][1][1]), Fraction(ch[1][1][1])
+        if e.denominator == 1 and (b != 0 or e >= 0):     # folded only when the result is an exact rational
+            return const(REAL, b ** int(e))
     if op == "ARRAY_VALUE":
         seen = {}
         for i in range(1, len(ch), 2):
